@@ -12,6 +12,7 @@ import (
 	"path/filepath"
 	"strconv"
 	"strings"
+	"unicode"
 )
 
 func init() { propRunners["C20"] = runC20 }
@@ -408,7 +409,7 @@ func (g *Gen) ttStruct() *Sexp {
 		case 2:
 			names = []*Sexp{A(hxs(fmt.Sprintf("p%d", i)))}
 		case 3:
-			names = []*Sexp{A(hxs(fmt.Sprintf("_u%d", i)))}
+			names = []*Sexp{A(hxs(g.r.Pick(fmt.Sprintf("_u%d", i), "_", fmt.Sprintf("名前%d", i), fmt.Sprintf("_U%d", i))))}
 		default:
 			names = []*Sexp{A(hxs(fmt.Sprintf("F%d", i)))}
 		}
@@ -489,7 +490,7 @@ func tagtoolEligibility(flags [3]bool, op *Sexp, after string) []string {
 				continue
 			}
 			first := []rune(name)[0]
-			lower := first >= 'a' && first <= 'z'
+			lower := !unicode.IsUpper(first) // Go's rule: exported = upper-case first rune; _x and caseless scripts are not
 			at := tagText(af[i].List[2].Atom)
 			got, has := keyVal(at, "plenc")
 			if flags[2] && lower {
